@@ -405,6 +405,9 @@ class CellConversion:
                 assert len(surfaces) >= 1  # otherwise things are REALLY weird
                 return ['*', surfaces[0], -surfaces[0]]
             new_geom = self.pot_complement(cell.geometry)
+            if len(tree) > 2:
+                # complement of a cell complement, see GeomExpression.inverse
+                return new_geom
             return new_geom.inverse()
         new_tree = [tree[0]]
         new_tree.extend(self.pot_complement(node) for node in tree[1:])
